@@ -481,7 +481,12 @@ def model_line(sc):
                     extra.append([f"lsF:{op[1] + 100 * (lvl + 1)}:{op[3]}:{src}:{mr}"])
                     src = op[1] + 100 * (lvl + 1)
             elif k == "lsR":
-                toks.append(f"lsR:{op[1]}:{op[2]}:{nreq.get(op[2], 0)}")
+                n = nreq.get(op[2], 0)
+                toks.append(f"{'lsR' if VARIANT['ls_order_fix'] else 'lsROld'}:{op[1]}:{op[2]}:{n}")
+                for it in range(n):          # a re-submitted request may start a lookup (and a timer) of its own
+                    src = 1000 * (it + 1) + op[1]
+                    for lvl in range(depth):
+                        extra.append([f"lsF:{src + 100 * (lvl + 1)}:{op[2]}:{src if lvl == 0 else src + 100 * lvl}:{mr}"])
         threads.append(toks)
     return "explore " + " / ".join(" ".join(t) for t in threads + extra)
 
